@@ -285,6 +285,21 @@ func (fc *FnCtx) applyContract(st *State, ct *Contract, callee *ssa.Function, si
 			}
 		}
 	}
+	// parameters renamed in the code since the ledger was written: the contract's names are
+	// read by position
+	if callee != nil && len(callee.Blocks) > 0 {
+		if rec, ok := fc.E.recorded[fnKeyFull(callee)]; ok && len(rec.Params) == len(callee.Params) {
+			for i, p := range callee.Params {
+				if rec.Params[i] != p.Name() {
+					if v, ok := env.Vars[p.Name()]; ok {
+						if _, taken := env.Vars[rec.Params[i]]; !taken {
+							env.Vars[rec.Params[i]] = v
+						}
+					}
+				}
+			}
+		}
+	}
 	// requires
 	for _, cl := range ct.Requires {
 		if strings.HasPrefix(cl.Label, "env-") {
